@@ -24,7 +24,7 @@ func init() {
 		Level: "fault_enumeration",
 		Rule: "for every corpus frame and EVERY cut offset k in [0,len): the scripted reader delivers exactly the first k bytes and then ends the stream (io.EOF) or fails with a fresh error value E; " +
 			"the delivered prefix is fragmented by every schedule with at most 2 (quick) / 3 (thorough) non-default Read answers (short read, zero read, last chunk delivered together with the error). " +
-			"Required: nil packet and non-nil error; errors.Is(err,E) whenever the reader returned E; errors.Is(err,io.EOF) for k=0 with EOF. " +
+			"Every frame of the valid corpus V (~2.7k frames) is cut at every offset as well, with 0 (quick) / 1 (thorough) further deviations. Required: nil packet and non-nil error; errors.Is(err,E) whenever the reader returned E; errors.Is(err,io.EOF) for k=0 with EOF. " +
 			"distinct_nontrivial = distinct (frame, k, kind, schedule) with k>0 (the fault strikes inside the frame).",
 		Assumptions: []string{
 			"E is a fresh pointer-typed error per execution, so errors.Is can only succeed through wrapping or identity",
@@ -96,8 +96,17 @@ func runC08(x *core.Ctx) {
 	if x.Thorough() {
 		bound = 3
 	}
-	for _, f := range streamCorpus() {
+	frames := append([]CFrame{}, streamCorpus()...)
+	nCorpus := len(frames)
+	for _, v := range validCorpus() {
+		frames = append(frames, CFrame{Name: "V:" + v.Name, B: v.B, Valid: true, Type: v.B[0] >> 4})
+	}
+	for fi, f := range frames {
 		f := f
+		bound := bound
+		if fi >= nCorpus {
+			bound -= 2 // the valid corpus V: every cut, 0 (quick) / 1 (thorough) further deviations
+		}
 		for k := 0; k < len(f.B); k++ {
 			for _, kind := range []env.EndKind{env.EndEOF, env.EndErr} {
 				if !x.Mine() {
